@@ -103,6 +103,10 @@ func OutcomeError(outcome string) error {
 	}
 }
 
+// EmptySubject as the "subject" option makes the probe authenticator produce a subject whose id is the empty string
+// (none of heimdall's own authenticators does that; mechanisms that receive a subject must cope with it all the same).
+const EmptySubject = "<empty>"
+
 type probe struct {
 	id            string
 	outcome       string
@@ -168,6 +172,10 @@ func (p probeAuthenticator) Execute(ctx heimdall.Context) (*subject.Subject, err
 		sub = "probe"
 	}
 
+	if sub == EmptySubject {
+		sub = ""
+	}
+
 	return &subject.Subject{ID: sub, Attributes: map[string]any{"by": p.id}}, nil
 }
 
@@ -183,9 +191,9 @@ func (p probeAuthenticator) IsFallbackOnErrorAllowed() bool { return p.allowFall
 
 type probeAuthorizer struct{ *probe }
 
-func (p probeAuthorizer) ID() string                                            { return p.id }
+func (p probeAuthorizer) ID() string                                             { return p.id }
 func (p probeAuthorizer) Execute(ctx heimdall.Context, _ *subject.Subject) error { return p.run(ctx) }
-func (p probeAuthorizer) ContinueOnError() bool                                 { return p.continueOnErr }
+func (p probeAuthorizer) ContinueOnError() bool                                  { return p.continueOnErr }
 func (p probeAuthorizer) WithConfig(c map[string]any) (authorizers.Authorizer, error) {
 	np, err := p.configure(c)
 	if err != nil {
@@ -213,9 +221,9 @@ func (p probeContextualizer) WithConfig(c map[string]any) (contextualizers.Conte
 
 type probeFinalizer struct{ *probe }
 
-func (p probeFinalizer) ID() string                                            { return p.id }
+func (p probeFinalizer) ID() string                                             { return p.id }
 func (p probeFinalizer) Execute(ctx heimdall.Context, _ *subject.Subject) error { return p.run(ctx) }
-func (p probeFinalizer) ContinueOnError() bool                                 { return p.continueOnErr }
+func (p probeFinalizer) ContinueOnError() bool                                  { return p.continueOnErr }
 func (p probeFinalizer) WithConfig(c map[string]any) (finalizers.Finalizer, error) {
 	np, err := p.configure(c)
 	if err != nil {
